@@ -35,7 +35,11 @@ Alt(e) == IF Chg(e) = {} THEN (IF OptOnly(e) THEN "none" ELSE "rm")
           ELSE IF Chg(e) = {"dh1"} /\ OptOnly(e) THEN "b:dh1"
           ELSE IF e.alt = "none" THEN "altered" ELSE e.alt
 
+\* announced GUIDs: the driver logs, per party, the byte positions (0..15) in which the GUID the party announces
+\* (c.pdata, SPDP) differs from the GUID bound to its certificate (gdA / gdB, facts); the class follows from
+\* DDS Security 1.1 Table 52 (HandshakeAbs!LieClass: bytes 0..5 are the certificate-derived 48 bits)
 Reset(e) ==
+  /\ lie' = [p \in Parties |-> LieClass(SetOf(IF p = "A" THEN e.gdA ELSE e.gdB))]
   /\ ds' = [p \in Parties |-> IF p = "A" THEN "ReqSend" ELSE "ReqMsg"]
   /\ clean' = [p \in Parties |-> TRUE]
   /\ hurt' = [p \in Parties |-> FALSE]
@@ -51,7 +55,7 @@ Reset(e) ==
 End(e) ==
   /\ sec' = S(e)
   /\ viol' = viol \cup SecViol(ds, clean, S(e))
-  /\ UNCHANGED <<ds, clean, hurt, accAlt, msgs, known, run>>
+  /\ UNCHANGED <<ds, clean, hurt, accAlt, msgs, lie, known, run>>
 
 Step ==
   /\ l <= Len(Rec)
